@@ -349,6 +349,7 @@ pub fn op_strategy(mix: &Mix, p: SizeProfile) -> BoxedStrategy<AbsOp> {
                 t.clone().prop_map(|t| AbsOp::MarkClean { t }),
                 t.clone().prop_map(|t| AbsOp::MarkDirty { t }),
                 t.clone().prop_map(|t| AbsOp::IsClean { t }),
+                prop_oneof![Just(1u16), Just(5), Just(20), Just(250)].prop_map(|ms| AbsOp::Sleep { ms }),
             ]
             .boxed(),
         ));
